@@ -28,6 +28,10 @@ def main():
         mod = importlib.import_module("checks." + modname)
         getattr(mod, fn)(ctx)
         return ctx.finish()
+    except vlib.CodePanic as e:
+        # a panic inside a bifrost package while a driver exercised it: real behaviour of the code under test
+        ctx.violation("panic:" + e.where, "the code under test panicked in %s while the driver exercised it" % e.where, {"panic": e.text})
+        return ctx.finish()
     except vlib.Infra as e:
         print("INFRA-FAILURE property=%s: %s" % (a.prop, e))
         try:
